@@ -804,7 +804,7 @@ def lean_lines_for_case(ctx: Ctx, spec, sc, rng, want_resid=True):
                 f.prune_frame_data(frame_ds, unant_qids)
                 data = frame_ds.get_data_variant().copy()
                 cols = list(range(f.first, f.simulation_last + 1))
-                if len(cols) * len(endo) > (12 if ctx.quick else 24):
+                if len(cols) * len(endo) > (18 if ctx.quick else 30):
                     break
                 gs = [P @ np.nan_to_num(data[u_qids, c]) for c in cols]
                 sysT = system_text(m, eqs_prefix, endo, f.first, f.simulation_last, "first_order")
@@ -909,8 +909,8 @@ def run(ctx: Ctx):
                 "models). evaluations = simulate() calls that reported success and were judged by the oracle. distinct_nontrivial = distinct tuples (model kind, "
                 "method, terminal, initial_guess, min(#frames,3), has leads, lag>1, anticipated shocks, perturbed initial condition, span length) judged without failure")
     replay_corpus(ctx)
-    n_cases = ctx.n(14, 160)
-    n_lean = ctx.n(10, 80)
+    n_cases = ctx.n(24, 500)
+    n_lean = ctx.n(14, 200)
     items = []
     for i in range(n_cases):
         rng = ctx.rng.fork(f"case{i}")
